@@ -7,7 +7,8 @@ Open Scope string_scope.
 Inductive c08case :=
 | mk_c08 (h : hcase) (exp_docs : list obj) (exp_doc : obj) (exp_update_c exp_recovery_c : string) (exp_deactivated : bool) (exp_origin : json)
          (all_built all_parsed anchored_ok : bool)
-| mk_c08refuse (code : nat) (impl_refused expect_refuse : bool).
+| mk_c08refuse (code : nat) (impl_refused expect_refuse : bool)
+| mk_c08conc (as_sequential : bool).
 
 (* null, [] and absent members are the same request ("no keys") *)
 Definition doc_norm (d : obj) : obj :=
@@ -58,4 +59,8 @@ Definition judge_c08 (c : c08case) : verdict :=
   | mk_c08refuse code refused expect =>
       if Bool.eqb refused expect then Pass
       else if Nat.leb 10 code then Known code else SpecFail (20 + code)
+  | mk_c08conc same =>
+      (* independent DIDs built and parsed by several goroutines at once: every request as built
+         sequentially from the same input, every request accepted *)
+      if same then Pass else SpecFail 40
   end.
